@@ -58,13 +58,15 @@ def gen_case(rng, abi=False):
                 fields.append('struct %s *next;' % tag)
             if not abi and kind == 'struct' and rng.chance(0.2) and not any(' : ' in x for x in fields):
                 fields.append('...;')
+            partial = '...;' in fields     # a partial struct is only used behind pointers
             if kind == 'struct' and rng.chance(0.5):
                 td = names.new('T_')
                 decls.append('typedef struct %s { %s } %s;' % (tag, ' '.join(fields), td))
-                types.append(td)
+                if not partial:
+                    types.append(td)
             else:
                 decls.append('%s %s { %s };' % (kind, tag, ' '.join(fields)))
-                if kind == 'struct':
+                if kind == 'struct' and not partial:
                     types.append('struct ' + tag)
             if kind == 'struct':
                 ptr_ok.append(tag)
